@@ -8,6 +8,7 @@
 //! and recipe of the history language, because all generators draw from the shared `gen` strategies.
 //! What a judge cannot decide it skips (don't-care bands, suspended network view); nothing here adds a
 //! demand that the own stage does not make.
+use crate::drive::fronts::FrontKind;
 use crate::drive::history::*;
 use proptest::prelude::*;
 use serde_json::Value;
@@ -33,6 +34,9 @@ pub fn strategy_of(name: &str) -> BoxedStrategy<History> {
                 h.board.nb_offset_ms = o * 15;
                 h.board.tx_ms = t * 7;
                 h.board.nb_duration_ms = [100, 150, 999, 1000, 1001, 3000][(h.rng_seed % 6) as usize];
+                if h.cfg.front == FrontKind::Nb {
+                    h.board.tx_ms = [t * 7, t * 7, 0x7FFF_FB00 + t * 300, 0xFFFF_F800 + t * 400, 0xFFFF_FFFF][((h.rng_seed >> 8) % 5) as usize];
+                }
                 h
             })
             .boxed(),
